@@ -91,6 +91,21 @@ impl Migrator {
     }
 }
 
+/// Gathers the comments attached to the tokens of a subtree that the
+/// migration removes, so that they can be kept.
+#[derive(Default)]
+struct CommentCollector {
+    comments: Vec<Token>,
+}
+
+impl VerylWalker for CommentCollector {
+    fn veryl_token(&mut self, arg: &VerylToken) {
+        for x in &arg.comments {
+            self.comments.push(*x);
+        }
+    }
+}
+
 impl VerylWalker for Migrator {
     fn veryl_token(&mut self, arg: &VerylToken) {
         self.token(arg);
@@ -99,6 +114,13 @@ impl VerylWalker for Migrator {
     fn for_statement(&mut self, arg: &ForStatement) {
         self.r#for(&arg.r#for);
         self.identifier(&arg.identifier);
+        // The `: Type` annotation goes away; the comments written around it stay.
+        let mut dropped = CommentCollector::default();
+        dropped.colon(&arg.colon);
+        dropped.scalar_type(&arg.scalar_type);
+        for x in &dropped.comments {
+            self.push_token(x);
+        }
         self.r#in(&arg.r#in);
         if let Some(ref x) = arg.for_statement_opt {
             self.rev(&x.rev);
